@@ -166,9 +166,13 @@ void CircuitFlowGeneratorSolver<W>::mult_row_into(size_t src_row, size_t dst_row
 
 template <size_t W>
 void CircuitFlowGeneratorSolver<W>::undo_mrb(CircuitInstruction inst, bool x, bool z) {
-    check_for_1q_anticommutations(inst, x, z);
-    remove_single_qubit_reset_terms(inst);
-    add_1q_measure_terms(inst, x, z);
+    // Undo one target at a time (in reverse order), because a repeated target is reset between its two measurements.
+    for (size_t k = inst.targets.size(); k--;) {
+        CircuitInstruction sub{inst.gate_type, inst.args, inst.targets.sub(k, k + 1), inst.tag};
+        check_for_1q_anticommutations(sub, x, z);
+        remove_single_qubit_reset_terms(sub);
+        add_1q_measure_terms(sub, x, z);
+    }
 }
 template <size_t W>
 void CircuitFlowGeneratorSolver<W>::undo_mb(CircuitInstruction inst, bool x, bool z) {
